@@ -361,6 +361,30 @@ func (x *runner) step(forcePath *bool) string {
 			if len(gone) > 0 {
 				sort.Slice(gone, func(i, j int) bool { return gone[i].Seq < gone[j].Seq })
 				t := gone[r.Intn(len(gone))]
+				// two times in three, aimed: a forgotten transaction one of whose inputs
+				// is now spent by a DIFFERENT unconfirmed transaction (the survivor of a
+				// conflict): removing the forgotten one again must not touch the survivor
+				if r.Intn(3) != 0 {
+					spentByUnmined := map[wire.OutPoint]bool{}
+					for _, u := range m.Unmined() {
+						for _, in := range u.Msg.TxIn {
+							spentByUnmined[in.PreviousOutPoint] = true
+						}
+					}
+					var aimed []*Tx
+					for _, gt := range gone {
+						for _, in := range gt.Msg.TxIn {
+							if spentByUnmined[in.PreviousOutPoint] {
+								aimed = append(aimed, gt)
+								break
+							}
+						}
+					}
+					if len(aimed) > 0 {
+						t = aimed[r.Intn(len(aimed))]
+						x.hit("abandon-of-forgotten-tx-whose-input-a-survivor-spends", 1)
+					}
+				}
 				x.ev("abandon %s again (already forgotten)", t.Short())
 				if err := x.sweep("abandon", func() error { return x.st.Abandon(t) }); err != nil {
 					x.fail(err, "RemoveUnminedTx(repeated)")
